@@ -17,7 +17,7 @@ for sd in seeds:
         shutil.copytree("/repo/src", d + "/repo/src")
         p = subprocess.run(["patch", "-p1", "-s", "-i", "%s/seeded/%s/patch.diff" % (V, sd)], cwd=d + "/repo")
         if p.returncode != 0:
-            results[sd] = {"property": prop, "error": "patch does not apply to the current tree"}
+            results[sd] = {"property": prop, "error": meta.get("superseded", "patch does not apply to the current tree")}
             continue
         env = dict(os.environ, VX_REPO=d + "/repo", VX_EVIDENCE_DIR=d + "/ev", VX_REPLAY_DIR=d + "/rp")
         out = {}
@@ -26,8 +26,8 @@ for sd in seeds:
         for pid in order:
             if pid not in cfg:
                 continue
-            if pid != prop and out.get(prop, {}).get("rc") == 1 and os.environ.get("VX_SEEDS_ALL") != "1":
-                break   # caught by its own check: the other checks are only consulted for misses
+            if pid != prop and out.get(prop, {}).get("rc") in (1, 2) and os.environ.get("VX_SEEDS_ALL") != "1":
+                break   # caught (or undecided) by its own check: the other checks are only consulted for misses
             r = subprocess.run([sys.executable, V + "/vx/vx.py", "check", pid], env=env, stdout=subprocess.PIPE, stderr=subprocess.STDOUT, text=True)
             obl = sorted(set(re.findall(r"obligation=(\S+)", r.stdout)))
             out[pid] = {"rc": r.returncode, "obligations": obl}
